@@ -554,7 +554,10 @@ func callSSA(i *interpreter, caller *frame, callpos token.Pos, fn *ssa.Function,
 	}
 	if st := i.ld.stubFor(fn); st != nil {
 		fr.env = nil
-		return st(fr, args)
+		if r := st(fr, args); r != (stubDecline{}) {
+			return r
+		}
+		// the stub declined these arguments: run the function's real body
 	}
 	if fn.Blocks == nil {
 		panic(pathAbort{"unsupported", "no code for function: " + fn.String() + i.where()})
@@ -724,3 +727,6 @@ func doRecover(caller *frame) value {
 	return iface{}
 }
 
+
+// stubDecline is returned by a stub that only handles some argument shapes.
+type stubDecline struct{}
